@@ -85,6 +85,13 @@ func c16check(w *Worker, call *Call, r *Rng, idx int64) {
 			w.Violate("C16 F-panicked", "Fprint(f) panicked ("+pvalString(pan)+") where Sprint(f) did not: "+call.String(), cs("Fprint(f)")())
 			return
 		}
+		if len(rw.writes) == 0 && ref.out == "" {
+			// nothing to deliver: whether Write is called with an empty slice is not constrained
+			if n != 0 || err != nil {
+				w.Violate("C16 F-result", "Fprint(f) returned ("+itoa(n)+", "+sprint(err)+") without calling Write for "+call.String(), cs("Fprint(f)")())
+			}
+			continue
+		}
 		if len(rw.writes) != 1 {
 			w.Violate("C16 write-count", "Fprint(f) performed "+itoa(len(rw.writes))+" Write calls (writer mode "+itoa(mode)+") for "+call.String(), cs("Fprint(f)")())
 			return
